@@ -122,6 +122,17 @@ namespace
         static int32_t unit(int64_t k) { static const int32_t u[] = {1, 1, 10, 100, 3, 1}; return u[mod(k, 6)]; }
         static int32_t tmax() { return INT32_MAX; }
     };
+    // a wrapping counter as the time base (the millis() of a small target): `now - start >= interval` is the wrap-safe idiom,
+    // and under it a start that lies in the future is indistinguishable from one that is long overdue. The property holds for
+    // this base exactly on the histories that keep every start at or before "now": client plans start in the past or now,
+    // and a callback does not re-plan its own timer at "now" (the re-arm would shift that start one interval ahead). The
+    // counter itself does not wrap inside a run (plan() orders by absolute deadline).
+    template <> struct Units<uint32_t>
+    {
+        static const char *name() { return "timer_manager<uint32>"; }
+        static uint32_t unit(int64_t k) { static const uint32_t u[] = {1, 1, 10, 100, 3, 1}; return u[mod(k, 6)]; }
+        static uint32_t tmax() { return UINT32_MAX; }
+    };
     struct Script
     {
         int kind = 0;
@@ -329,6 +340,7 @@ namespace
                     probe(o == id ? "callback_unplanned_self" : "callback_unplanned_other");
                     break;
                 case 3:
+                    if (std::is_unsigned<TT>::value) break; // (see Units<uint32_t>)
                     do_plan(id, now, iv);
                     pending_changed = true;
                     probe("replan_self");
@@ -339,6 +351,7 @@ namespace
                     probe("callback_planned_overdue");
                     break;
                 case 5:
+                    if (std::is_unsigned<TT>::value && o == id) break;
                     do_plan(o, now, iv);
                     pending_changed = true;
                     probe("callback_planned_future");
@@ -381,6 +394,7 @@ namespace
             script.assign(n, Script());
             for (int i = 0; i < n; i++) tim.emplace_back(fresh_timer(i));
             int64_t origin = p.c(1, 1000) % 100000;
+            if (std::is_unsigned<TT>::value) origin = 70000 + mod(origin, 1000), probe("wrapping_counter_time_base");
             now = (TT)origin * S;
             if (origin <= 0) probe("time_origin_not_positive");
             callbacks = 0;
@@ -434,6 +448,7 @@ namespace
                 {
                     int64_t iv = mod(arg(o, 3) - 1, 5000) + 1;
                     int64_t back = arg(o, 2) % 20000;
+                    if (std::is_unsigned<TT>::value && back < 0) back = 0;
                     cur_mg = (int)mod(arg(o, 4), nmgr);
                     t.ev("plan t%d in manager %d start=now-%lld iv=%lld", ti, cur_mg, (long long)back, (long long)iv);
                     do_plan(ti, now - (TT)back * S, (TT)iv * S);
@@ -630,10 +645,11 @@ int main(int argc, char **argv)
     TimerWorldT<int64_t> tw;
     TimerWorldT<double> twd;
     TimerWorldT<int32_t> tw32;
+    TimerWorldT<uint32_t> twu32;
     StimerWorld sw;
     Harness h;
     h.property = "C16";
-    h.worlds = {&tw, &sw, &twd, &tw32};
+    h.worlds = {&tw, &sw, &twd, &tw32, &twu32};
     h.real = {"igris/time/timer_manager.h", "igris/container/dlist.h+dlist.cpp", "igris/event/delegate.h (timer_basic<spec, int, int> with a member-function delegate: every odd timer)",
               "igris/sync/syslock_mutex.cpp (single thread)", "igris/datastruct/stimer.c"};
     h.stub = {"simulated clock (now passed into exec/stimer_check)", "main loop with stalls", "client ops", "callback scripts"};
